@@ -1297,6 +1297,62 @@ example : WriterStoreOk [⟨0, 0, 7⟩, ⟨1, 7, 14⟩] := by
       · show (findBestSlope (rangeEls ⟨0, 0, 7⟩ [⟨1, 7, 14⟩] 14)).2 < 256
         omega
 
+/-- files with at most one block carry no index (`fst_len = 0`, `SSTableIndexV3Empty`): the one
+pseudo-block covers the data region and `ord_to_term` reads it; on the empty dictionary every
+ordinal is past the end -/
+theorem C15_small_file_ord_to_term (skip : List UInt8 → List UInt8) (numTerms version ord : Nat)
+    (hn : numTerms < 18446744073709551616) (hv : version < 4294967296) :
+    (∀ (b : List Key) (p : List UInt8), StrictInc b → skip p = encodeBlockKeys b → p ≠ [] →
+      p.length + 1 < 4294967296 →
+      fileOrdToTerm skip (finishFile (frameBlocks [p]) (u64enc 0) numTerms version) ord = some b[ord]?) ∧
+    fileOrdToTerm skip (finishFile (frameBlocks []) (u64enc 0) numTerms version) ord = some none :=
+  ⟨fun b p hinc hskip hp1 hp2 => single_block_file_ord_to_term skip b p numTerms version ord hinc hskip hp1 hp2 hn hv,
+   empty_file_ord_to_term skip numTerms version ord hn hv⟩
+
+/-- the file the model writer lays out for a non-empty strictly increasing key list (`VoidSSTable`,
+any block length) with the index store the writer model lays out for its frames: `ord_to_term` on
+the bytes is `ks[ord]?` — writer and reader composed, the FST bytes arbitrary -/
+theorem C15_void_file_ord_to_term (blockLen : Nat) (ks : List Key) (hs : StrictInc ks) (hks : ks ≠ [])
+    (fst : List UInt8) (ord : Nat)
+    (hsize : ∀ b ∈ encodeBlocks blockLen ks, b.length + 1 < 4294967296)
+    (hok : WriterStoreOk (frameAddrs (blocksOf id blockLen ks) (encodeBlocks blockLen ks)))
+    (hfst0 : fst.length ≠ 0) (hfst : fst.length < 18446744073709551616)
+    (hdata : (frameBlocks (encodeBlocks blockLen ks)).length < 18446744073709551616)
+    (hn : ks.length < 18446744073709551616) :
+    fileOrdToTerm id (finishFile (frameBlocks (encodeBlocks blockLen ks))
+        (fst ++ storeBytes (writerStore (frameAddrs (blocksOf id blockLen ks) (encodeBlocks blockLen ks)))
+          ++ u64enc fst.length) ks.length Gen.SSTABLE_VERSION) ord = some ks[ord]? := by
+  have hfl := blocksOf_flatten (id : Key → Key) blockLen ks
+  have hall : ∀ b ∈ blocksOf id blockLen ks, StrictInc b :=
+    strictInc_of_mem_flatten (by rw [hfl]; exact hs)
+  have hne : ∀ b ∈ blocksOf id blockLen ks, b ≠ [] := cutBlocks_nonempty id blockLen [] 0 [] ks
+  have hbne : blocksOf id blockLen ks ≠ [] := by
+    intro e; rw [e] at hfl; exact hks hfl.symm
+  have hpsz : ∀ p ∈ encodeBlocks blockLen ks, p ≠ [] ∧ p.length + 1 < 4294967296 := by
+    intro p hp
+    refine ⟨?_, hsize p hp⟩
+    unfold encodeBlocks at hp
+    obtain ⟨b, hb, rfl⟩ := List.mem_map.mp hp
+    have := encodeEntries_length_ge [] b
+    intro e
+    unfold encodeBlockKeys at e
+    rw [e] at this
+    have : b.length = 0 := by simpa using this
+    exact hne b hb (List.eq_nil_of_length_eq_zero this)
+  have h := C15_file_ord_to_term_written_store id (blocksOf id blockLen ks) (encodeBlocks blockLen ks) fst
+    ks.length Gen.SSTABLE_VERSION ord hall hne hbne
+    (by
+      intro i p b hp hb
+      unfold encodeBlocks at hp
+      rw [List.getElem?_map, hb] at hp
+      simp only [Option.map_some, Option.some.injEq] at hp
+      rw [← hp]; rfl)
+    (by simp [encodeBlocks]) hpsz hok hfst0 hfst hdata hn (by decide)
+  rw [h, hfl]
+
+example : fileOrdToTerm id (finishFile (frameBlocks [[16, 7, 17, 9]]) (u64enc 0) 2 3) 1 = some (some [7, 9]) ∧
+    fileOrdToTerm id (finishFile (frameBlocks []) (u64enc 0) 0 3) 0 = some none := by decide
+
 /-! ## non-vacuity -/
 
 example : StrictInc [[], [0], [0, 0], [0, 255], [1], [255, 255]] :=
